@@ -27,6 +27,10 @@ Outcome RunC18(RunCtx& ctx)
 	zg.nonEmptyStrings = archive == A_XML || archive == A_CSV;
 	// KF-XML-NULL-VS-EMPTY: XML cannot tell an empty container from null, so an empty container in the document leaves a populated target unchanged
 	zg.allowEmpty = archive != A_XML || s.chance(sim::L_CFG, 1, 64);
+	// 1 history in 8 moves one sequence member between small sizes and sizes around the estimate cap (1023..2049 elements)
+	zg.jumboMember = DrawJumbo(s, sim::L_CFG, 8);
+	zg.jumboOneIn = 2;
+	if (zg.jumboMember >= 0 && !csv) { ctx.count(std::string("jumbo.") + JumboName(zg.jumboMember)); sim::probe("history-with-container-above-estimate-cap"); }
 	Outcome out;
 	out.cfgKey = an + (withAborts ? "|aborts" : "|clean") + (loadModes ? "|modes" : "") + "|" + std::to_string(nLoads);
 	ctx.note("archive=" + an + " history of " + std::to_string(nLoads) + " loads" + (withAborts ? " with aborts" : "") + (loadModes ? " with MapLoadMode::OnlyExistKeys/UpdateKeys" : "") + " options: " + OptStr(o));
